@@ -42,6 +42,58 @@ CHECKS = {
              "documents (value level; the integer subtype table that decides "
              "the spelling of B arrays is checked under C20). Known finding: "
              "scalar JSON values. " + TRUSTED),
+    "C02": dict(
+        technique="interprocedural size-change effect analysis of loops over "
+                  "live back-reference lists (ITER), producer/declaration "
+                  "agreement of back-reference keys, and decision tables of "
+                  "the connect/disconnect helpers by abstract interpretation "
+                  "(static analysis)",
+        engine="EFFECT+TABLE",
+        design_ref="DESIGN.md sections 3.4, 3.5 and section 4, C02",
+        text="Partial. Decides: (a) none of the loops/comprehensions that "
+             "iterate a live back-reference list (13 today; lazy views such "
+             "as reversed()/enumerate() and bound names included) has a body "
+             "that can change the length of a _refs list of the list's owner "
+             "or of a line found in the loop element's state -- the bug class "
+             "that made rm() skip every second dependant; (b) every "
+             "back-reference key that reference initialisation can file on a "
+             "class (extracted by abstract evaluation of all "
+             "_initialize_references and of the group item admission list) "
+             "is declared by that class; (c) connect and disconnect perform "
+             "their steps in the consistent order; (d) the removal helpers "
+             "reach a line, an oriented line, lists of either, and turn "
+             "every reference into an identifier in place; "
+             "__update_reference_in_list replaces exactly the old entries "
+             "and flips an orientation exactly for a complement; (e) every "
+             "location a line can be stored in is named by the holder's "
+             "_backreference_keys (149 cells, worst case of self-links).",
+        note="Undecided: that lookups by current identifier succeed after "
+             "arbitrary histories; run-time aliasing. The ITER rule uses the "
+             "shape invariant 'a line found in the state of an element of "
+             "X's back-reference list may be X'. Known finding: Gap declares "
+             "no sets/paths keys. " + TRUSTED),
+    "C03": dict(
+        technique="decision tables (abstract interpretation) of the duplicate "
+                  "search, of every _backreference_keys and of the "
+                  "placeholder substitution helpers, against the locations "
+                  "where placeholders are stored (static analysis)",
+        engine="TABLE",
+        design_ref="DESIGN.md section 4, C03",
+        text="Partial. Decides the structural conditions for a placeholder to "
+             "be replaced everywhere when its definition arrives: every class "
+             "constructed with virtual=True is reached by _search_duplicate "
+             "(links by oriented segment pair); every location where a line "
+             "can be stored in a referring line is returned by that line's "
+             "_backreference_keys; _substitute_virtual_line sets the owner, "
+             "imports the references, unregisters the placeholder and "
+             "registers the definition in that order; _import_references "
+             "takes the Unknown / field-import branch correctly and re-points "
+             "every referrer under every key the placeholder collected; an "
+             "oriented entry flips exactly when the definition is the "
+             "complement of the placeholder link.",
+        note="Undecided: equality of the graphs built from concrete "
+             "permutations; version inference across orders (C13). "
+             + TRUSTED),
     "C04": dict(
         technique="regular-language equivalence on automata built from the "
                   "validators' regular expressions with Python re semantics, "
@@ -71,6 +123,25 @@ CHECKS = {
              "The automata are cross-checked against stdlib re on random "
              "strings at every run. Known finding: scalar JSON values. "
              + TRUSTED),
+    "C05": dict(
+        technique="table comparison of the dependency declarations with the "
+                  "documented cascade, ITER size-change analysis of the "
+                  "cascade loops, key-declaration agreement and decision "
+                  "tables of the removal helpers (static analysis)",
+        engine="EFFECT+TABLE",
+        design_ref="DESIGN.md section 4, C05",
+        text="Partial. Decides: DEPENDENT_LINES of every record class equals "
+             "the documented removal cascade and is disjoint from "
+             "OTHER_REFERENCES; the cascade loop and every other loop over a "
+             "live back-reference list cannot skip elements (ITER); a mention "
+             "of a removed line can be dropped because its key is declared by "
+             "the mentioned class; disconnect performs its six steps in "
+             "order; the removal helpers handle every shape of reference; "
+             "every mention is re-pointed to the line object when a "
+             "placeholder is replaced (so a rename is written everywhere).",
+        note="Undecided: textual equality with the re-parsed model on "
+             "concrete histories. Known finding: a removed gap stays listed "
+             "in its set/path. " + TRUSTED),
     "C10": dict(
         technique="interprocedural may-write effect and alias analysis "
                   "(whole-program fixpoint over the syntax trees, "
